@@ -2,7 +2,7 @@ import Nstd.Str.LemmasBody
 /-!
   **Tie by translation** (property C06).  `tools/gen_str.py` translates the bodies of
   `~String()`, `detach(usize, usize)`, `String(const String&)`, `operator=(const String&)`, `operator const char*()` (both),
-  `operator char*()`, `detach()`, `resize`, `reserve`, `append` (x3), `prepend` (x2) of the CURRENT include/nstd/String.hpp
+  `operator char*()`, `detach()`, `resize`, `reserve`, `append` (x3), `prepend` (x2, `PropsBody2.lean`) of the CURRENT include/nstd/String.hpp
   statement by statement into `Nstd.Str.Generated.Body.*` (over the load/store semantics of `Mach.lean`).  The theorems of
   this file show that the translated bodies ARE the hand-written model steps of `Model.lean` the other Props theorems speak
   about, on every state `Sane s` (unused next block id, live blocks have a positive count, no dangling `data` — all part of the
@@ -340,14 +340,6 @@ theorem appendAlias_translated (s : St) (v off len : Nat) (hs : ∀ s1, cview s 
       · simp [g]
       · simp [g, appendP_translated h1, hd]
 
-/-
-OPEN: `prepend(const String&)` and `prepend(const char*, usize)` are translated (`Body.prependS`, `Body.prependP`: the local
-`String copy(*this)` through the translated copy constructor and destructor over one temporary slot) but the equalities
-    Body.prependS s v w t = prependS s v w t        Body.prependP s v p len t = (model's prependP / prependAlias over the pointer)
-on `Sane` states with an empty slot `t` are not proved yet (the proof needs that `ctorCopy` into an empty slot keeps `Sane`);
-these two bodies are tied by the correspondence run and by the translator's refusal of anything outside its subset only.
-`clear`, `attach` (it stores into `_data`) and the other constructors are not translated.
--/
 
 end Nstd.Str
 
